@@ -96,6 +96,17 @@ func init() {
 		return Value{T: r}
 	}
 	externEffects["bytes.Index"] = effNone
+	externModels["reflect.DeepEqual"] = func(f *Frame, instr ssa.Instruction, c *ssa.CallCommon, args []Value, rt types.Type) Value {
+		e := f.e
+		r := e.havoc(f.name("deq"), SBool)
+		a, b := args[0].T, args[1].T
+		if a.Sort == SIface && b.Sort == SIface {
+			e.assume(implies(r, and(eq(app(SBV64, "itag", a), app(SBV64, "itag", b)), eq(eq(a, sym("inil", SIface)), eq(b, sym("inil", SIface))))))
+			e.assume(implies(eq(a, b), r))
+		}
+		return Value{T: r}
+	}
+	externEffects["reflect.DeepEqual"] = effNone
 	externModels["errors.New"] = func(f *Frame, instr ssa.Instruction, c *ssa.CallCommon, args []Value, rt types.Type) Value {
 		r := f.e.havoc(f.name("err"), SIface)
 		f.e.assume(not(eq(r, sym("inil", SIface))))
@@ -218,9 +229,8 @@ func (f *Frame) builtin(instr ssa.Instruction, b *ssa.Builtin, c *ssa.CallCommon
 				return Value{T: i64(arr.Len())}
 			}
 		case *types.Map:
-			e.predeclare("maplen", "(declare-fun maplen ((_ BitVec 64) Int) (_ BitVec 64))")
-			r := e.havoc(f.name("maplen"), SBV64)
-			e.assume(sle(i64(0), r))
+			r := e.define(f.name("maplen"), ite(eq(t, i64(0)), i64(0), e.mapLen(f.st, u, t)))
+			e.assume(and(sle(i64(0), r), sle(r, i64(1<<40))))
 			return Value{T: r}
 		}
 		r := e.havoc(f.name("len"), SBV64)
